@@ -80,6 +80,7 @@ type Sim struct {
 	condRule  map[*types.Var]*CondRule
 	predOf    map[*types.Var]*CondRule
 	trace     string
+	staleN    int
 	Errors    []string
 }
 
@@ -194,7 +195,7 @@ func (s *Sim) AddRoot(r *Root) {
 	s.roots = append(s.roots, r)
 	// func values captured by an entry point can be called from it in any state: entry points too
 	for _, b := range append(append([]Val(nil), r.Free...), r.Params...) {
-		if al, ok := b.Root.(*ssa.Alloc); ok && b.K == KPath && len(b.Segs) == 0 {
+		if al, ok := b.Root.(*ssa.Alloc); ok && b.K == KPath && len(b.Segs) == 0 && !b.Deref {
 			if sts := s.P.storesToAlloc[al]; len(sts) == 1 && (b.Fr == nil || b.Fr.Fn == sts[0].Parent()) {
 				b = s.P.Eval(b.Fr, sts[0].Val)
 			}
@@ -864,7 +865,7 @@ func (s *Sim) normLock(v Val) Val {
 	if cr == nil || cr.LockAlias == nil {
 		return v
 	}
-	base := Val{K: KPath, Root: v.Root, Fr: v.Fr, Segs: v.Segs[:n-2]}
+	base := Val{K: KPath, Root: v.Root, Fr: v.Fr, Segs: v.Segs[:n-2], Deref: v.Deref}
 	out := base
 	for _, fname := range cr.LockAlias {
 		f := s.P.StructField(cr.Type, fname)
@@ -1236,7 +1237,7 @@ func (s *Sim) isFreshRoot(st *State, a Val) bool {
 	if a.K != KPath {
 		return false
 	}
-	return st.fresh[a.Root]
+	return st.fresh[a.Root] && !a.Deref
 }
 
 func (s *Sim) access(fr *Frame, st *State, a Val, write bool, in ssa.Instruction) {
@@ -1251,7 +1252,7 @@ func (s *Sim) access(fr *Frame, st *State, a Val, write bool, in ssa.Instruction
 	base, f, elems, ok := a.LastField()
 	if !ok {
 		// a plain cell
-		if al, isAlloc := a.Root.(*ssa.Alloc); isAlloc && len(a.Segs) == 0 && s.P.ConcurrentlyCaptured(al) && !st.fresh[al] {
+		if al, isAlloc := a.Root.(*ssa.Alloc); isAlloc && len(a.Segs) == 0 && !a.Deref && s.P.ConcurrentlyCaptured(al) && !st.fresh[al] {
 			s.event(fr, st, kind+":cell("+al.Type().Underlying().(*types.Pointer).Elem().String()+")", in)
 			root := ""
 			if s.cur != nil {
@@ -1555,7 +1556,7 @@ func (s *Sim) finishCells() {
 }
 
 func (s *Sim) unfresh(st *State, v Val) {
-	if v.K == KPath {
+	if v.K == KPath && !v.Deref {
 		if st.fresh[v.Root] {
 			delete(st.fresh, v.Root)
 			// everything stored (once) in a cell travels with it
@@ -1608,10 +1609,23 @@ func (s *Sim) step(fr *Frame, in ssa.Instruction, st *State) []*State {
 	case *ssa.Store:
 		a := s.P.Eval(fr, x.Addr)
 		s.access(fr, st, a, true, in)
+		if a.K == KPath && len(a.Segs) == 0 && !a.Deref {
+			// re-assignment of a pointer variable: locks that were taken through its previous value no longer cover
+			// what the variable points to now
+			if al, ok := a.Root.(*ssa.Alloc); ok && len(s.P.storesToAlloc[al]) > 1 {
+				pre := a.Key()
+				for i := range st.held {
+					if strings.HasPrefix(st.held[i].Key, pre) && len(st.held[i].Key) > len(pre) {
+						s.staleN++
+						st.held[i].Key = st.held[i].Key + "#stale" + itoa(s.staleN)
+					}
+				}
+			}
+		}
 		if a.K == KPath {
 			delete(st.nz, a.Key())
 			delete(st.nilp, a.Key())
-			if al, ok := a.Root.(*ssa.Alloc); ok && len(a.Segs) == 0 && !s.P.ConcurrentlyCaptured(al) && s.P.Captured(al) {
+			if al, ok := a.Root.(*ssa.Alloc); ok && len(a.Segs) == 0 && !a.Deref && !s.P.ConcurrentlyCaptured(al) && s.P.Captured(al) {
 				k := a.Key()
 				if b, known := s.evalBool(fr, st, x.Val); known && isBool(x.Val.Type()) {
 					if b {
@@ -1631,7 +1645,7 @@ func (s *Sim) step(fr *Frame, in ssa.Instruction, st *State) []*State {
 			}
 			s.markDirty(fr, st, a, x.Val, in)
 			// escape of a fresh object: stored into memory that is not itself fresh
-			if !st.fresh[a.Root] {
+			if !s.isFreshRoot(st, a) {
 				s.unfresh(st, s.P.Eval(fr, x.Val))
 			}
 		}
@@ -1662,7 +1676,7 @@ func (s *Sim) step(fr *Frame, in ssa.Instruction, st *State) []*State {
 		if m.K == KPath {
 			s.access(fr, st, m.with(Seg{Elem: true}), true, in)
 			s.markDirty(fr, st, m.with(Seg{Elem: true}), x.Value, in)
-			if !st.fresh[m.Root] {
+			if !s.isFreshRoot(st, m) {
 				s.unfresh(st, s.P.Eval(fr, x.Value))
 				s.unfresh(st, s.P.Eval(fr, x.Key))
 			}
